@@ -112,6 +112,11 @@ def ctxOracles (id op : String) (c : Ctx) (x y : Dec) (iarg : Int) (impl : Out) 
     | none => pure ()
     for (prop, why) in opOracle op c x y iarg impl do
       out := out ++ [s!"{id} PROPFAIL {prop} {why}"]
+  else if op == "quantize" && x.form == .finite && x.exp - iarg > 100000 then
+    -- a rescaling beyond the package limit must still end in InvalidOperation (or, for a zero, in that zero):
+    -- an error of another class is judged too
+    for (prop, why) in opOracle op c x y iarg impl do
+      out := out ++ [s!"{id} PROPFAIL {prop} {why}"]
   return out
 
 /-- `T=c19,n16,ef:1:23:-1` → tape -/
@@ -467,6 +472,8 @@ def handleRel (id : String) (t : List String) : Option (List String × Nat × Na
             res := merge res (propfail id "C20" "scaling the operands by a power of ten does not scale the result")
       | "mono" =>
         if fin && !x.isNaN && !y.isNaN && specCmp x y ≤ 0 && !(specCmp a.d b.d ≤ 0) then
+          res := merge res (propfail id "C20" "Round is not monotone")
+        if fin && !x.isNaN && !y.isNaN && specCmp x y ≥ 0 && !(specCmp a.d b.d ≥ 0) then
           res := merge res (propfail id "C20" "Round is not monotone")
       | _ => pure ()
       return res
@@ -849,6 +856,17 @@ def handleParse (id : String) (t : List String) : Option (List String × Nat × 
         if !(m.err == e && m.fl == Cond.ofNat fl && m.d == pd.d) then
           res := merge res ([s!"{id} MISMATCH parse model= {showOut m}"], 1, 0)
       | none => res := merge res ([s!"{id} MISMATCH parse model= reject"], 1, 0)
+      -- C01/C02: context-aware parsing returns the denoted value rounded once (C01_value_parse_partial: whenever
+      -- the error is the one the flags imply and no system limit was hit), in C01's domain Precision ≤ MaxExponent
+      let l := str.toList
+      let flc := Cond.ofNat fl
+      if c.prec > 0 && decide ((c.prec : Int) ≤ c.emax) && Apd.Spec.numericString l && !(Apd.Spec.isSpecial l)
+          && decide (Apd.Spec.ExpInt32 str) && e == goError c.traps flc && !flc.sysOverflow && !flc.sysUnderflow then
+        let s := specRound c { neg := l.head? == some '-', num := Apd.Spec.coeffOf l, den := 1, e10 := Apd.Spec.denotedExp l }
+        if !(s.matches pd.d) then
+          res := merge res (propfail id "C01" s!"context-aware parsing: spec= inf={s.inf} neg={s.neg} m={s.m} q={s.q}")
+        if flc.inexact != s.inexact || flc.subnormal != s.subnormal || flc.underflow != s.underflow || flc.overflow != s.overflow then
+          res := merge res (propfail id "C02" s!"context-aware parsing: flags differ from the specification inexact={s.inexact} subnormal={s.subnormal} overflow={s.overflow}")
       -- C07: the context-rounded result fits
       if (e == .none || e == .trap) && c.prec > 0 && !(fits c pd.d) then
         res := merge res (propfail id "C07" "parsed and rounded result does not fit the context")
